@@ -40,9 +40,13 @@ def gen_cases(ctx):
     ns = [1, 2, 3] if quick else [1, 2, 3, 4]
     patterns = ["cau", "cfu", "mix"]
     # (i) bounded-exhaustive timelines
-    for (uname, u), (tsec, fwd), n in itertools.product(units, cfgs, ns):
+    # a tick frequency above 10^9 (any real TSC): ticks and nanoseconds differ in the other direction
+    fast = [("2400000000", 2400000000)]
+    for (uname, u), (tsec, fwd), n in itertools.product(units + fast, cfgs, ns):
         gs = gaps_for(tsec * u)
         for pat in patterns:
+            if (uname, u) in fast and (pat != "cau" or n > 2):
+                continue
             if not quick or pat != "mix" or n <= 2:
                 for gaps in itertools.product(gs, repeat=L):
                     ops = ["init %s %d %d %d" % (uname, tsec, n, fwd)]
